@@ -207,3 +207,10 @@ Definition stress_oracle (c : nat * nat * list (list N) * bool) : bool :=
        forallb (fun g => increasing (ids_of p g)) got          (* per-producer order, per consumer *)
        && Nat.eqb (length (ids_of p all)) k
        && forallb (fun x => (x <? p * 1000 + N.of_nat k)%N) (ids_of p all)) (seq 1 np).
+
+(** Constructor-style builders for the generated case literals (much faster to elaborate than
+    nested tuple notations). *)
+Definition KO (sts : list kst) (ev : list nat) (q r x z w : N) : kobs := (sts, ev, q, r, x, z, w).
+Definition KSt (o : kop) (ob : kobs) : kop * kobs := (o, ob).
+Definition KC (n : nat) (l : list (kop * kobs)) : qcase := (n, l).
+Arguments KO sts ev (q r x z w)%N.
